@@ -14,6 +14,10 @@ from ufl.corealg.multifunction import MultiFunction
 
 
 def make_alg(spec):
+    if spec["kind"] == "FN":          # a plain function handed to map_expr_dag / map_expr_dags
+        def fn(v, *ops):
+            return "fn"
+        return fn
     ns = {}
     for n in spec["handlers"]:
         exec(f"def {n}(self, o, *ops):\n    return '{n}'", {}, ns)
@@ -21,10 +25,25 @@ def make_alg(spec):
     return type(spec["name"], (base,), ns)
 
 
+def samples():
+    """one instance of a few old concrete classes (targets of plain-function mapping)"""
+    import uflgen
+    f, g = uflgen.coef(()), uflgen.coef(())
+    return {"Coefficient": f, "Sum": f + g, "Product": f * g, "Division": f / g, "Sin": ufl.sin(f),
+            "Abs": abs(f), "Power": f ** g, "Cos": ufl.cos(g)}
+
+
+def run_fn(fn, i, e):
+    from ufl.corealg.map_dag import map_expr_dag, map_expr_dags
+    return map_expr_dag(fn, e) if i % 2 == 0 else map_expr_dags(fn, [e])[0]
+
+
 def main():
     job = json.load(sys.stdin)
     algs = [make_alg(a) for a in job["algs"]]
+    kinds = [a["kind"] for a in job["algs"]]
     byname = {c.__name__: c for c in Expr._ufl_all_classes_}
+    inst_of = samples() if "FN" in kinds else {}
     out = []
     errs = []
     registered = {}
@@ -41,14 +60,28 @@ def main():
             cls = ufl_type(**kw)(cls)
             byname[name] = cls
             registered[name] = cls._ufl_typecode_
+            if not abstract and inst_of:
+                inst_of[name] = cls(inst_of["Coefficient"])
         elif op[0] == "inst":
             try:
-                algs[op[1]]()
+                if kinds[op[1]] == "FN":
+                    run_fn(algs[op[1]], op[1], inst_of["Sum"])
+                else:
+                    algs[op[1]]()
             except Exception as ex:      # noqa: BLE001
                 errs.append([op[1], type(ex).__name__])
         else:
             _, ai, cname = op
             tc = byname[cname]._ufl_typecode_
+            if kinds[ai] == "FN":
+                try:
+                    r = run_fn(algs[ai], ai, inst_of[cname])
+                    out.append("ufl_type" if r == "fn" else "OTHER:" + repr(r)[:40])
+                except IndexError:
+                    out.append("IndexError")
+                except Exception as ex:      # noqa: BLE001
+                    out.append("EXC:" + type(ex).__name__)
+                continue
             try:
                 inst = algs[ai]()
                 h = inst._handlers[tc]
